@@ -5,6 +5,7 @@ pattern -- chosen so that a finding in scope breaks *that* property for some cal
 STATE-MEMO : no stale memoised state (memo.py)
 """
 import os
+from fractions import Fraction
 import ast
 import re
 import shutil
@@ -700,8 +701,40 @@ def ctor_params(check):
                 bad += 1
                 check.violation("CTOR-PARAM", f.qualname, "constructor parameter `%s` is accepted but never used (not stored, not forwarded to a base constructor): the object silently keeps the default whatever the caller passes" % prm,
                                 "%s:%d" % (f.module.relpath, f.node.lineno), key="unused-" + prm)
+        # falsy zero: `self.a = a or <number>` (or `a if a else <number>`) for a NUMERIC parameter (declared with a numeric default, or
+        # none): 0 is a value like any other (no convection, no gravity, kappa = 0, time 0) and is silently replaced
+        dfl = f.defaults()
+        try:
+            summ = proj.ctor_summary(ci)
+        except AnalysisError:
+            summ = {}
+        for attr, b in summ.items():
+            if not (isinstance(b, tuple) and len(b) == 2 and b[0] == "truthy"):
+                continue
+            form, ops = b[1]
+            first = ops[0] if form in ("or", "and") else ops[0]
+            if not (isinstance(first, tuple) and first and first[0] == "param"):
+                continue
+            prm = first[1]
+            d = dfl.get(prm)
+            numeric_default = d is None or (isinstance(d, ast.Constant) and isinstance(d.value, (int, float)) and not isinstance(d.value, bool)) \
+                or (isinstance(d, ast.UnaryOp) and isinstance(d.operand, ast.Constant)) or isinstance(d, ast.BinOp)
+            if prm not in f.params or (prm in dfl and not numeric_default):
+                continue
+            other = [o for o in ops[1:] if isinstance(o, tuple) and o and o[0] == "const" and isinstance(o[1], (int, float, Fraction)) and not isinstance(o[1], bool)]
+            if form == "and" or not other or other[0][1] == 0:
+                continue            # (`x or 0.` replaces 0 by 0)
+            owners = None
+            for modpat, pname, ps in CTOR_PARAM_PROPS:
+                if re.fullmatch(modpat, ci.module.short) and (pname == prm or (pname is None and owners is None)):
+                    owners = ps
+            if owners is None or pid not in owners:
+                continue
+            bad += 1
+            check.violation("CTOR-PARAM", f.qualname, "`self.%s` is the parameter `%s` only when it is TRUTHY, otherwise %s: the legitimate value 0 (and 0.0) is silently replaced by the default" % (attr, prm, other[0][1]),
+                            "%s:%d" % (f.module.relpath, f.node.lineno), key="falsy-zero-" + prm)
     if n and not bad:
-        check.ok("CTOR-PARAM", "%d constructor parameters" % n, "every constructor parameter in the scope of this property is used (stored or forwarded)")
+        check.ok("CTOR-PARAM", "%d constructor parameters" % n, "every constructor parameter in the scope of this property is used (stored or forwarded), none through a truthiness default that swallows 0")
 
 
 def bc_dict_pure(check):
